@@ -157,5 +157,5 @@ class SmoothStronglyConvexQuadraticFunction(Function):
 
                 T[i, j] = (self.L + self.mu) * gi * (xj - xs) - gi * gj - self.mu * self.L * (xi - xs) * (xj - xs)
 
-        psd_matrix = PSDMatrix(matrix_of_expressions=T)
+        psd_matrix = PSDMatrix(matrix_of_expressions=(T + T.T) / 2)
         self.list_of_class_psd.append(psd_matrix)
